@@ -426,7 +426,8 @@ pub fn run(prop: u8, tier: &str) -> Report {
     }
     let m = SetMachine { prop, max_res, max_len, max_depth, inits };
     let threads = std::thread::available_parallelism().map(|n| n.get()).unwrap_or(4);
-    let checker = m.clone().checker().threads(threads).spawn_bfs().join();
+    let cap: usize = 30_000_000;
+    let checker = m.clone().checker().threads(threads).target_state_count(cap).spawn_bfs().join();
     let states = checker.unique_state_count() as u64;
     let generated = checker.state_count() as u64;
     let g = glob();
@@ -434,7 +435,7 @@ pub fn run(prop: u8, tier: &str) -> Report {
     if tier != "quick" {
         // second run: counts must be identical (depth is part of the state key)
         let before = g.evaluated.load(Ordering::Relaxed);
-        let c2 = m.clone().checker().threads(threads).spawn_bfs().join();
+        let c2 = m.clone().checker().threads(threads).target_state_count(cap).spawn_bfs().join();
         runs_agree = c2.unique_state_count() as u64 == states;
         let _ = before;
     }
@@ -478,7 +479,8 @@ pub fn run(prop: u8, tier: &str) -> Report {
     rep.set("rule", json!(format!(
         "stateright BFS of the cell-set machine (Split/Drop/AddAncestor/Dup through real cell_to_children/cell_to_parent) from {} initial states, max resolution {}, list length <= {}, depth <= {} (depth is part of the state key); oracle on every state; plus all 2^|U| subsets of {} universes; distinct_nontrivial = states mixing the 12/5 aperture levels with other resolutions",
         m.inits.len(), max_res, max_len, max_depth, universes(tier).len())));
-    rep.set("exhaustive", json!(true));
+    rep.set("exhaustive", json!((checker.state_count() as usize) < cap));
+    rep.set("state_cap", json!(cap));
     rep.set("overlapping_states", json!(g.overlapping_states.load(Ordering::Relaxed)));
     rep.set("subsets_evaluated", json!(subsets));
     rep.set("nonoverlapping_subsets", json!(nonoverlap));
